@@ -8,7 +8,7 @@ TEXTS = {
         "level_note": "Trusts go/parser's view of the sources and that registrations are syntactic lint.Register* calls; says nothing about trees not yet written.",
     },
     "C01": {
-        "technique": "rapid property test over generated objects x registries x configurations; result-set invariant oracle",
+        "technique": "rapid property test over generated objects x registries x configurations; enumerated single-edit home sweep; late-registration history; concurrent cold start under the race detector; result-set invariant oracle",
         "level_text": "Exploration: tens of thousands (quick) to millions (thorough) of generated parseable certificates/CRLs/OCSP responses, each linted with a generated registry selection and configuration; every returned ResultSet is checked against the invariants of the statement (exact key set, non-nil, metadata, status range, four flags both directions, version from go.mod, no panic/hang). Status mixes the real lints cannot produce come from the mock-lint leg.",
         "level_note": "Samples the input space; shapes no generator reaches are not covered. Hang = one call > 45 s.",
     },
@@ -23,7 +23,7 @@ TEXTS = {
         "level_note": "Applicability is re-evaluated on the re-dated object with the lint's own CheckApplies; zlint's year-0 ZeroDate boundaries cannot be approached.",
     },
     "C04": {
-        "technique": "differential against an independent reference lifecycle (scope model from the statement) over an enumerated scope matrix + rapid-generated objects; mock-lint call logs",
+        "technique": "differential against an independent reference lifecycle (scope model from the statement) over an enumerated scope matrix + rapid-generated objects; mock-lint call logs; concurrent-vs-sequential differential on scope variants under the race detector",
         "level_text": "Every lint's framework result is compared (status and details) with a reference lifecycle built from public API only: scope model written from the statement, fresh instance, MaybeConfigure, CheckApplies, integer window, Execute. The single-feature scope matrix (each EKU / each scope policy OID / e-mail SAN variants) is enumerated in both tiers, so a predicate losing one OID or EKU is caught deterministically.",
         "level_note": "The reference calls the rule body a second time, so it relies on bodies being deterministic (C05).",
     },
@@ -53,7 +53,7 @@ TEXTS = {
         "level_note": "CLI name round trips are strided in the quick tier (every 9th name), complete in thorough.",
     },
     "C14": {
-        "technique": "round-trip property (Marshal/Unmarshal) over rapid-generated result sets and synthetic results; enumerated status/label table; strict decoding of WriteJSON",
+        "technique": "round-trip property (Marshal/Unmarshal) over rapid-generated result sets and synthetic results; enumerated status/label table; strict decoding of WriteJSON, also after late registrations; concurrent-vs-sequential encoders under the race detector",
         "level_text": "Round trip on generated result sets (with hostile bytes planted into names so details carry them) and on synthetic results with arbitrary bytes; the U+FFFD model is written independently; statuses -3..12 and arbitrary label strings are classified; every WriteJSON line of generated filtered registries is decoded with unknown fields disallowed.",
         "level_note": "JSON escapes inside labels (\\u0070ass) are outside the generated domain.",
     },
@@ -63,7 +63,7 @@ TEXTS = {
         "level_note": "A lint that decodes the signature only for an algorithm no generated certificate uses would be missed.",
     },
     "C16": {
-        "technique": "enumerated thresholds/divisors + rapid-generated (N, e, Rounds) written into real certificates; math/big reference predicates",
+        "technique": "enumerated thresholds/divisors/word-pattern prime pairs + rapid-generated (N, e, Rounds) written into real certificates; math/big reference predicates; concurrent-vs-sequential key verdicts under the race detector",
         "level_text": "Each of the 14 key-quality lints is compared, wherever the reference lifecycle says it executed, with its arithmetic predicate computed independently with math/big (own sieve of primes < 752, own Fermat round count from p and q); divisors 2..769 and all bit-length thresholds +-1 are enumerated; self-signed roots are built from committed keys so the root-only lint runs.",
         "level_note": "Rounds capped at 2000; 'found within rounds' model is exact for products of two distinct odd primes only.",
     },
@@ -78,7 +78,7 @@ TEXTS = {
         "level_note": "The model reads the same gtld_map.go bytes the compiler sees (via go/parser), so table and model cannot drift.",
     },
     "C19": {
-        "technique": "exhaustive enumeration of block edges and all super-/sub-net prefixes + rapid addresses/networks/certificates; integer CIDR model and algebraic laws",
+        "technique": "exhaustive enumeration of block edges, all super-/sub-net prefixes and anchor x block non-prefix masks + rapid addresses/networks/masks/certificates; integer CIDR model, bitwise membership model and algebraic laws; cold-start concurrency leg under the race detector",
         "level_text": "22 special-purpose blocks written from the RFCs and 26 public anchors; edges and every prefix length around each block in both address forms are enumerated on every run; algebraic laws (form agreement, singleton network == address test, contains-reserved => intersects, super-net monotonicity) on millions of random cases; the three lints must agree with the functions.",
         "level_note": "Only blocks named in the statement are demanded; extra reservations in the implementation are allowed.",
     },
@@ -88,12 +88,12 @@ TEXTS = {
         "level_note": "A pair member that disappears from the registry is reported in evidence (pair_member_missing), not as a violation.",
     },
     "C05": {
-        "technique": "repetition and read-only properties over rapid-generated objects, rapid state machine for histories, fresh-process differential under generated environments, strace syscall monitor",
+        "technique": "repetition and read-only properties over rapid-generated objects and enumerated sweeps, enumerated predecessor sweep (lint x reporting object x every object), rapid state machine for histories, soak history, fresh-process differential under generated environments, strace syscall monitor",
         "level_text": "Four oracles: identical status+details over 12-40 repetitions on fresh parses; a memo-model state machine over lint/filter/reconfigure histories with re-used parsed objects; a reflect walk proving every exported field of the linted object equals an unlinted twin; digests from a fresh process equal in-process digests under generated environments, and no I/O system call starts inside the marked lint window of that process under strace.",
         "level_note": "I/O and environment independence are observed on executed paths; the two time.Now() lints are compared within one run (same UTC day).",
     },
     "C10": {
-        "technique": "rapid-generated concurrent programs run under the Go race detector; differential against memoised sequential results; deadlock watchdog",
+        "technique": "rapid-generated concurrent programs, cold starts (first use concurrent: lint runs, registry reads, pure helpers) and hammers run under the Go race detector; differential against sequential results; deadlock watchdog",
         "level_text": "Generated multi-goroutine programs mixing Lint*Ex on distinct objects with registry reads and Filter on shared registries, run 3 times each under GOMAXPROCS 1/2/4/16 in a -race binary; any race report, panic, hang or concurrent result that differs from the sequential one is a violation. The corpus is walked round-robin so every lint body it reaches runs concurrently.",
         "level_note": "Interleavings are sampled, not enumerated; a logic-only ordering bug without a data race may be missed.",
     },
